@@ -312,6 +312,74 @@ func transformFile(fset *token.FileSet, path string, src []byte, kind string, in
 			}
 			return true
 		})
+	case "unnest-else", "nest-else":
+		terminates := func(b *ast.BlockStmt) bool {
+			if len(b.List) == 0 {
+				return false
+			}
+			switch x := b.List[len(b.List)-1].(type) {
+			case *ast.ReturnStmt:
+				return true
+			case *ast.BranchStmt:
+				return x.Tok == token.CONTINUE || x.Tok == token.BREAK || x.Tok == token.GOTO
+			}
+			return false
+		}
+		hasLabel := func(list []ast.Stmt) bool {
+			found := false
+			for _, st := range list {
+				ast.Inspect(st, func(n ast.Node) bool {
+					if _, ok := n.(*ast.LabeledStmt); ok {
+						found = true
+					}
+					return !found
+				})
+			}
+			return found
+		}
+		var rewrite func(list []ast.Stmt) []ast.Stmt
+		rewrite = func(list []ast.Stmt) []ast.Stmt {
+			for i, st := range list {
+				is, ok := st.(*ast.IfStmt)
+				if !ok || !terminates(is.Body) {
+					continue
+				}
+				if kind == "unnest-else" {
+					eb, ok := is.Else.(*ast.BlockStmt)
+					if !ok || is.Init != nil {
+						continue
+					}
+					// if c {A; return} else {B}  ->  if c {A; return}; {B}
+					is.Else = nil
+					out := append([]ast.Stmt{}, list[:i+1]...)
+					out = append(out, eb)
+					out = append(out, list[i+1:]...)
+					n++
+					return out
+				}
+				if is.Else != nil || i == len(list)-1 || hasLabel(list[i+1:]) {
+					continue
+				}
+				// declarations after the if would change scope for nothing that follows: fine; but a
+				// := in the rest that shadows is unaffected. Only do it when the rest is non-empty.
+				rest := append([]ast.Stmt{}, list[i+1:]...)
+				is.Else = &ast.BlockStmt{List: rest}
+				n++
+				return append([]ast.Stmt{}, list[:i+1]...)
+			}
+			return list
+		}
+		ast.Inspect(f, func(nd ast.Node) bool {
+			switch x := nd.(type) {
+			case *ast.BlockStmt:
+				x.List = rewrite(x.List)
+			case *ast.CaseClause:
+				x.Body = rewrite(x.Body)
+			case *ast.CommClause:
+				x.Body = rewrite(x.Body)
+			}
+			return true
+		})
 	case "demorgan":
 		// if a || b  ->  if !(!(a) && !(b));   if a && b -> if !(!(a) || !(b))   (if conditions only)
 		ast.Inspect(f, func(nd ast.Node) bool {
@@ -485,7 +553,7 @@ func runBenignFuzz(repo, verif string, only string) int {
 			}
 		}
 	}
-	kinds := []string{"swap-eq", "flip-rel", "negate-if", "for-cond", "noop", "rename", "switch-to-if", "if-to-switch", "demorgan", "swap-add"}
+	kinds := []string{"swap-eq", "flip-rel", "negate-if", "for-cond", "noop", "rename", "switch-to-if", "if-to-switch", "demorgan", "swap-add", "unnest-else", "nest-else"}
 	var variants []benignVariant
 	tmp, err := os.MkdirTemp("", "benignfuzz")
 	if err != nil {
